@@ -7,7 +7,7 @@ from sim import Config, var, W, R, P, A, N, D, RW
 
 PROP = "C16"
 LEVEL = "exploration"
-RULE = ("initial (1005h, 1006h) x timer frequency {100 Hz, 1 kHz, 10 kHz} x histories of SDO writes to 1005h/1006h (start, stop, re-time, id "
+RULE = ("initial (1005h, 1006h) x timer frequency {100 Hz, 1 kHz, 10 kHz, 20 kHz, 1 MHz} x histories of SDO writes to 1005h/1006h (start, stop, re-time, id "
         "change while producing / idle, unresolvable and very long periods up to 2^32-1 us, valid writes after refused ones, writes while the expired SYNC event is served but not yet processed), received SYNC "
         "and near-miss frames, NMT commands incl. reset communication, ticks; produced (tick, id, dlc) SYNC frames compared tick by tick "
         "with the reference schedule, SDO verdicts with the write rules, and the reaction of a synchronous TPDO (type n) and RPDO to every "
@@ -40,15 +40,13 @@ class SyncModel:
         self.rpdo_pending = None
 
     def period(self, cycle):
-        """ticks, or None if the timer cannot resolve it"""
-        if cycle < self.min_cycle():
+        """ticks (the workload writes whole numbers of ticks), or None if the timer cannot resolve it"""
+        if cycle < self.tick_us:
             return None
-        return (cycle // 100) * 100 // self.tick_us if self.tick_us >= 100 else (cycle // 100) * (100 // self.tick_us)
+        return cycle // self.tick_us
 
     def min_cycle(self):
-        # smallest time of at least one tick, in multiples of 100 us
-        mt = (10000 + self.freq - 1) // self.freq if self.freq <= 10000 else 1
-        return mt * 100
+        return self.tick_us
 
     def producing(self):
         return bool(self.cobid & 0x40000000)
@@ -151,13 +149,13 @@ def cycles_for(freq, rng):
     tick_us = 1000000 // freq
     good = [tick_us * k for k in (1, 2, 3, 5, 10, 50, 100, 700)]
     good += [c for c in (10000000, 70000000, 1000000000, 4294960000) if c % tick_us == 0 and (c // tick_us) <= 500000]
-    bad = [c for c in (1, 50, 99, tick_us - 100, tick_us // 2) if 0 < c < tick_us and c < 1000 * 10000 // freq]
+    bad = [c for c in (1, 50, 99, tick_us - 100, tick_us // 2, tick_us - 1) if 0 < c < tick_us]
     return good, bad
 
 
 def run_history(res, exe, rng, first):
     nid = rng.choice([1, 9])
-    freq = rng.choice([100, 1000, 1000, 10000])
+    freq = rng.choice([100, 1000, 1000, 10000, 20000, 1000000])      # 20 kHz / 1 MHz: ticks of 50 us / 1 us, periods that are no multiple of 100 us
     good, bad = cycles_for(freq, rng)
     ttype = rng.choice([1, 1, 2, 3, 5])
     cob0 = rng.choice([0x80, 0x80, 0x40000080, 0x100, 0x40000100])
